@@ -151,6 +151,10 @@ func runC03(tier string, seed uint64, rep *Report) {
 	expect(rep, "value thrown at macro-expansion time arrives unchanged",
 		Call("do", Call("defmacro", S("m!"), Call("fn", V(S("v")), Call("throw", types.HashMap{Val: map[string]types.MalType{Kw("bad"): 3}}))), Call("try", Call("m!", 1), Call("catch", S("e"), S("e")))),
 		ev(types.HashMap{Val: map[string]types.MalType{Kw("bad"): 3}}), "tmpl")
+	expect(rep, "handler value is returned, not evaluated again, also when a finally clause follows",
+		Call("try", Call("throw", Q(L(S("+"), 1, 2))), Call("catch", S("e"), S("e")), Call("finally", nil)), ev(L(S("+"), 1, 2)), "tmpl")
+	expect(rep, "a thrown list with an effect is data for the handler, also with finally",
+		Call("try", Call("throw", Q(L(S("trace!"), 99))), Call("catch", S("e"), S("e")), Call("finally", Call("trace!", 1))), ev(L(S("trace!"), 99), 1), "tmpl")
 	expect(rep, "outer finally runs when the handler ends in another try",
 		Call("try", thr(1), Call("catch", S("e"), Call("try", Call("trace!", 1), Call("finally", Call("trace!", 2)))), Call("finally", Call("trace!", 3))), ev(1, 1, 2, 3), "tmpl")
 	n, depth := 1500, 3
